@@ -112,6 +112,12 @@ class Indicator(ABC):
         self.candles_lifespan = manager.candles_lifespan
         self.candlestick_type = manager.candlestick_type
 
+        # helper indicators created by an earlier run follow the indicator to its new manager
+        for indicator in self.sub_indicators.values():
+            indicator.candle_manager = manager
+        for indicator in self.managed_indicators.values():
+            indicator.candle_manager = manager
+
     @property
     def name(self) -> str:
         """The indicator name that will be saved into the Candles"""
